@@ -130,6 +130,26 @@ print(json.dumps(bad))
 
 def run(chk, scratch):
     thorough = chk.tier == "thorough"
+    # the runs' temporary folder lies on ANOTHER file system than their HOME when one is available (tmpfs /dev/shm against the scratch disk, as
+    # on clusters with an NFS home): a file prepared elsewhere and "moved" over a cache file would be copied, not renamed
+    tmp_other = None
+    try:
+        if os.path.isdir("/dev/shm") and os.stat("/dev/shm").st_dev != os.stat(scratch).st_dev:
+            import tempfile as _tf
+            tmp_other = _tf.mkdtemp(prefix="verif_c20_tmp_", dir="/dev/shm")
+            os.environ["TMPDIR"] = tmp_other
+    except OSError:
+        tmp_other = None
+    chk.extra["tmpdir_on_another_file_system"] = bool(tmp_other)
+    try:
+        _run(chk, scratch, thorough)
+    finally:
+        if tmp_other:
+            os.environ.pop("TMPDIR", None)
+            shutil.rmtree(tmp_other, ignore_errors=True)
+
+
+def _run(chk, scratch, thorough):
     chk.rule = ("rounds of 2..16 simultaneously released IsoQuant runs under one HOME (fresh or pre-populated), equal or different annotations, "
                 "seeded delays injected at the load->truncate and truncate->dump gaps of the JSON cache files; plus rounds of concurrent "
                 "read_mapper cache drivers. non-trivial = rounds in which at least two processes' read-modify-write windows on db_config.json overlapped")
